@@ -106,6 +106,7 @@ def run(ctx, tier):
     ctx.rule("S6", "(shared with C07) byte accounting of the in-place editors")
     ctx.rule("M1", "fixed-width block reads/writes (SIMD loads, 8-byte memcpy words) stay inside the buffer")
     ctx.rule("M2", "copies into fixed-size stack arrays are bounded by the array size")
+    ctx.rule("M4", "the UTF-8 length pre-computation and the UTF-8 writer agree on the code-point class boundaries")
     ctx.rule("M3", "look-ahead reads x[i + k] (k >= 1) keep the dominating guard that bounds them")
     cfgs = ["release"] if tier == "quick" else ["release", "devchecks", "amalgamated", "avx512"]
     check_fixture(ctx)
@@ -123,6 +124,7 @@ def run(ctx, tier):
         check_parser_loop(ctx, fxs[name])
         check_loops(ctx, fxs[name], name)
         check_lookahead(ctx, fxs[name], name)
+        check_utf8_sizing(ctx, fxs[name])
     # a url_aggregator offset that is off by a few bytes is an out-of-range substr()/erase() (std::out_of_range escapes,
     # or bytes outside the component are read) for particular component lengths: the offset discipline is part of C02
     from rules import c07
@@ -803,3 +805,65 @@ def check_lookahead(ctx, fx, cfg):
     ctx.note("M3 (%s): %d look-ahead reads bounded by a dominating guard, %d not decided (caller contracts, table layouts, guards "
              "through other variables)" % (cfg, nproved, unp))
     ctx.floor("M3", nproved, 115, "look-ahead reads bounded by a dominating guard")
+
+
+# ---------------------------------------------------------------------------
+def check_utf8_sizing(ctx, fx):
+    """M4.  to_unicode() resizes its output to utf8_length_from_utf32(...) and lets utf32_to_utf8() write through data():
+    the writer stores 1/2/3/4 bytes for code points up to 0x7F / 0x7FF / 0xFFFF / above, so the counter must add its
+    increments at exactly those boundaries; a counter that under-counts one class makes the writer run past the end of the
+    string (heap overflow) for labels of that script only."""
+    cnt = fx.fn1("ada::idna::utf8_length_from_utf32")
+    wr = fx.fn1("ada::idna::utf32_to_utf8")
+    ks = []
+    for n, s, b in C.all_nodes(cnt):
+        if n.get("k") == "bin" and n.get("op") in (">", ">=") and X.const_val(n["r"]) is not None and X.strip(n["l"]).get("k") == "index":
+            ks.append(X.const_val(n["r"]) if n["op"] == ">" else X.const_val(n["r"]) - 1)
+    ks = sorted(set(ks))
+    # writer: branches `(word & MASK) == 0` and the number of byte stores on their true edge
+    blk = {b["id"]: b for b in wr["blocks"]}
+    branches = []
+    for b in wr["blocks"]:
+        c = C.term_cond(b)
+        c0 = X.strip(c) if c is not None else None
+        if isinstance(c0, dict) and c0.get("k") == "bin" and c0.get("op") == "==" and X.const_val(c0["r"]) == 0:
+            l = X.strip(c0["l"])
+            if isinstance(l, dict) and l.get("k") == "bin" and l.get("op") == "&" and X.const_val(l["r"]) is not None \
+                    and X.show(X.strip(l["l"])) == "word":
+                mask = X.const_val(l["r"]) & 0xFFFFFFFF
+                tb = [e["to"] for e in b["succ"] if e["when"] == "true"]
+                stores = 0
+                seen, st = set(), list(tb)
+                while st:
+                    x = st.pop()
+                    if x in seen:
+                        continue
+                    seen.add(x)
+                    bb = blk[x]
+                    for s2 in bb["stmts"]:
+                        for nd in X.stmt_nodes(s2, local=True):
+                            if nd.get("k") == "assign" and nd.get("op") == "=" and "utf8_output" in X.show(nd["lhs"]):
+                                stores += 1
+                    if any(X.show(nd).startswith("pos++") or X.show(nd).startswith("(pos++") or "pos ++" in X.show(nd)
+                           for s2 in bb["stmts"] for nd in X.stmt_nodes(s2, local=True) if nd.get("k") == "un"):
+                        continue
+                    for e in bb["succ"]:
+                        if not e.get("pruned") and len(seen) < 6:
+                            st.append(e["to"])
+                branches.append(((~mask) & 0xFFFFFFFF, stores, b["term"].get("loc", "")))
+    branches.sort()
+    wb = [x[0] for x in branches]
+    where = cnt["loc"].replace("/repo/", "")
+    if len(ks) != 3 or len(branches) != 3:
+        ctx.broken("M4: expected three class boundaries in utf8_length_from_utf32 (%s) and three masked branches in utf32_to_utf8 (%s)"
+                   % (ks, [hex(x) for x in wb]))
+    ctx.check("M4", "utf8_length_from_utf32 boundaries = utf32_to_utf8 boundaries", ks == wb, ", ".join(hex(k) for k in ks),
+              "the length pre-computation adds a byte above %s but the writer switches to a longer encoding above %s: for code points "
+              "between the differing boundaries the writer stores more bytes than were counted and overruns the output string"
+              % ([hex(k) for k in ks], [hex(k) for k in wb]), where=where)
+    ctx.check("M4", "boundaries are UTF-8's (0x7F, 0x7FF, 0xFFFF)", ks == [0x7F, 0x7FF, 0xFFFF], ", ".join(hex(k) for k in ks),
+              "class boundaries %s are not those of UTF-8" % [hex(k) for k in ks], where=where)
+    ctx.check("M4", "writer stores 1, 2, 3 bytes in the three masked branches", [x[1] for x in branches] == [1, 2, 3],
+              str([x[1] for x in branches]), "the writer's branches store %s bytes" % [x[1] for x in branches],
+              where=wr["loc"].replace("/repo/", ""))
+    ctx.floor("M4", 3, 3, "boundary obligations")
